@@ -205,8 +205,8 @@ PROPS = {
                    "count in [-nbits-1, nbits+1]) and structured transcripts and every output is judged by the executable specification",
         level_note="trusted: Lean kernel, hand-written limb model (tied by correspondence only on explored inputs), g++ 12.2; "
                    "every clause is proved Model = Spec for every nbits and limb width except multi-block uint64_t (C08_add/sub/neg/inc/dec/"
-                   "mul/bitwise/cmp/shl/shr_partial/divrem/convert/from_native/to_native); known findings with negation witnesses: >>= by >= "
-                   "nbits of a negative value gives 0 (D8, C08_shr_counterexample), native INT_MIN / -1 traps in the exact-fit 32/64-bit fast "
+                   "mul/bitwise/cmp/shl/shr/divrem/convert/from_native/to_native; C08_shr holds for every count since the repair 11c577e of "
+                   "D8); known findings with negation witnesses: native INT_MIN / -1 traps in the exact-fit 32/64-bit fast "
                    "path (C08_div_native_trap_counterexample), multi-block uint64_t carry chain drops the carry "
                    "(C08_add_u64_multiblock_counterexample)",
         explanation="integer + - * / % << >> & | ^ ~ unary minus ++ -- comparisons, size conversion, native conversions on "
@@ -224,8 +224,8 @@ PROPS = {
                    "streams, every instantiation is compared with the width-parametric model and the raw storage of all instantiations "
                    "must be identical",
         level_note="covers blockbinary, integer and fixpnt only (cfloat, lns, areal, einteger belong to other harnesses); trusted: Lean "
-                   "kernel, hand-written limb model, g++ 12.2; known findings: blockbinary operator<<= leaves block-width dependent "
-                   "stale bits above nbits (D7), native INT_MIN / -1 traps only in the exact-fit instantiation",
+                   "kernel, hand-written limb model, g++ 12.2; blockbinary/fixpnt operator<<= is block-type independent since the repair "
+                   "433c6a0 of D7 (C12_bb_shl); known finding: native INT_MIN / -1 traps only in the exact-fit instantiation",
         explanation="same operation streams on integer / blockbinary / fixpnt for every block type; raw storage compared across "
                     "instantiations and with the limb model",
         assumptions=["the compiled code behaves like the model on inputs that were not explored"],
